@@ -2,6 +2,11 @@
 # runs: engine = package under harness/, test = Go test function,
 #       quick/thorough: rapid case count, number of shard processes, timeout (s)
 
+ADV = ("rapid-generated scripts (trust configuration x 0-40 events) over the E2 alphabet: deliver/drain/drop/dup of the real peer's frames, "
+       "inject of well-formed, out-of-phase, structurally mutated and arbitrary SHIP messages and data frames, virtual-time advances "
+       "(1 ms .. 5 min), user approve/cancel, trust/waiting flips, local close, transport error, close propagation, application writes, "
+       "write failure at the k-th write; two real ShipConnections (client+server role) joined by a harness man-in-the-middle on the synctest clock. ")
+
 CHECKS = {
     "C07": dict(
         level="exploration",
@@ -27,5 +32,50 @@ CHECKS = {
                  thorough=dict(checks=1000000, shards=16, timeout=3000)),
         ],
         assumptions=["timeouts are observed through their effect in the pending-listen state (one prolongation request frame per timeout)"],
+    ),
+    "C01": dict(
+        level="exploration",
+        rule=ADV + "Oracle: invariant over the ordered callback log (no trusted state / setup / payload before local trust was granted; nothing "
+             "after an effective cancel; payload only after setup and completion). non-trivial = server untrusted, reached pending-listen "
+             "and >= 2 further events executed; distinct = hash of the script",
+        runs=[dict(engine="shipsim", test="TestC01", quick=dict(checks=40000, shards=4, timeout=600),
+                   thorough=dict(checks=1600000, shards=16, timeout=3000))],
+    ),
+    "C04": dict(
+        level="exploration",
+        rule=ADV + "Oracle: explicit SHIP 1.0.1 edge table per role, phase order, finality after terminal outcomes / closed transport "
+             "(no progress state, no armed timer, only closing frames, transport closed, no late activity). non-trivial = reached hello "
+             "or later and the run contains a fault, timeout or injected message; distinct = hash of the script",
+        runs=[dict(engine="shipsim", test="TestC04", quick=dict(checks=40000, shards=4, timeout=600),
+                   thorough=dict(checks=1600000, shards=16, timeout=3000))],
+    ),
+    "C08": dict(
+        level="exploration",
+        rule=ADV + "Oracle: no panic escapes a SHIP entry point, the bubble can end (no goroutine blocked for ever). non-trivial = a "
+             "hostile message was delivered in state hello or later; distinct = hash of the script; classes = inject per (role, state)",
+        runs=[dict(engine="shipsim", test="TestC08", quick=dict(checks=40000, shards=4, timeout=600),
+                   thorough=dict(checks=1600000, shards=16, timeout=3000))],
+    ),
+    "C11": dict(
+        level="exploration",
+        rule=ADV + "Oracle: HandleConnectionClosed exactly once per connection object by the end of the run, and within ten virtual "
+             "minutes of its transport being closed. non-trivial = >= 2 close causes in one run; distinct = hash of the script",
+        runs=[dict(engine="shipsim", test="TestC11", quick=dict(checks=40000, shards=4, timeout=600),
+                   thorough=dict(checks=1600000, shards=16, timeout=3000))],
+    ),
+    "C03": dict(
+        level="exploration",
+        rule=("rapid-generated scheduling-only scripts over two real endpoints (trust configuration incl. user approval/cancel at any position, "
+              "known/unknown hostile SHIP IDs; events: FIFO delivery per direction, approve, cancel, virtual-time advance, close propagation). "
+              "Timely mode: frames are delivered 1 virtual ms after being written whenever time passes; arbitrary mode: any delays and timer "
+              "expiries. Oracle at stability (settle until ten quiet virtual minutes): completion exactly when trust was given (timely), "
+              "setup exactly once, SHIP ID learned exactly once, never 'one side complete, the other ended/stuck'. non-trivial = a user "
+              "action, advance or close propagation strictly between first and last delivery; distinct = hash of the script"),
+        runs=[
+            dict(engine="shipsim", test="TestC03Timely", quick=dict(checks=20000, shards=4, timeout=600),
+                 thorough=dict(checks=800000, shards=8, timeout=3000)),
+            dict(engine="shipsim", test="TestC03Arbitrary", quick=dict(checks=20000, shards=4, timeout=600),
+                 thorough=dict(checks=800000, shards=8, timeout=3000)),
+        ],
     ),
 }
